@@ -436,6 +436,18 @@ def replay_ivector(ck, em, scn, trees, reported, outcomes):
     rs, ubm, stats, _ = problem(em, seed, n)
     dim_t = int(rs.randint(1, 3))
     scn["dim_t"] = dim_t
+    if seed % 3 == 0:
+        # a component that hardly any frame was assigned to (soft / pruned statistics): its total occupancy over the
+        # whole training set is ~1e-7 -- anything that is not a sum over the statistics (a constant added per E-step
+        # call, hence per partition) is no longer negligible against it
+        eps_occ = 10.0 ** -float(rs.uniform(6, 9))
+        for st in stats:
+            st.n = np.array(st.n, dtype=float)
+            st.sum_px, st.sum_pxx = np.array(st.sum_px, dtype=float), np.array(st.sum_pxx, dtype=float)
+            st.n[0] *= eps_occ
+            st.sum_px[0] *= eps_occ
+            st.sum_pxx[0] *= eps_occ
+        scn["component_0_occupancy_scaled_by"] = eps_occ
 
     # every second scenario with a configured variance floor high enough to be active (a quarter of the way up the
     # UBM's variances): the M-step on the bag must honour the estimator's own options like the one on the list
